@@ -94,6 +94,7 @@ PROFILES = {
         'lowered': 0.3,
         'nops': (4, 14),
         'stale': 0.25,
+        'mass': 0.02,
     },
     'C12': {'oracles': ['validate'], 'weights': W, 'with_b': True, 'big': 0.08, 'lowered': 0.3, 'nops': (3, 14)},
     'C13': {
@@ -190,6 +191,18 @@ def generate(prop, seed, tier='quick'):
         packs = [op for op in ops if op['op'] == 'add_pack' and op.get('t', 'c') == 'c']
         if packs:
             packs[0]['mass'] = rng.choice([1001, 1203, 2005])
+            packs[0].setdefault('seed', 0)
+            if 'delete' in prof['weights'] and rng.random() < 0.6:
+                # ... and a later delete removes a long run of consecutively inserted objects (a gap of >= 1000 ids in
+                # the index, possibly a whole page at its start or end), after which everything is compared again
+                mass = packs[0]['mass']
+                lo = rng.choice([0, 0, 1, 7])
+                hi = min(mass, lo + rng.choice([1000, 1001, 1100, mass]))
+                pos = rng.randint(ops.index(packs[0]) + 1, len(ops))
+                dele = {'op': 'delete', 'keys': [], 'absent': 0, 'repeats': 0, 'seed': rng.randrange(1 << 20), 'mass_range': [packs[0]['seed'], lo, hi]}
+                if handles > 1:
+                    dele['h'] = 0
+                ops.insert(pos, dele)
     return {
         'engine': 'A',
         'prop': prop,
